@@ -80,6 +80,10 @@ def instances(draw, sizes, na=None, two_sided=None, cls=None, min_len=1):
         perm = draw(st.permutations(list(range(1, n2 + 1))))
         k = uni(draw, min(min_len, n2, sizes['lmax']), min(n2, sizes['lmax']))
         prefs.append(_groups(draw, list(perm[:k]), t1))
+    if n1 >= 2 and pct(draw) < 5:
+        # a student who finds no project acceptable (an empty first-side list): the reader
+        # accepts the line, the student simply stays unassigned
+        prefs[uni(draw, 0, n1 - 1)] = []
     zero = cls == 'zero_capacity'
     lowq = cls in ('lower_quotas', 'tied_lower_quotas')
     uq_choices = [0, 0, 1, 1, 2] if zero else [0, 1, 1, 1, 2, 2, 3]
@@ -322,6 +326,8 @@ def instance_labels(inst, opts=None):
          'two_sided' if inst.get('lprefs') is not None else 'one_sided']
     if any(len(g) > 1 for pl in inst['prefs'] for g in pl):
         L.append('ties_side1')
+    if any(len(pl) == 0 for pl in inst['prefs']):
+        L.append('empty_first_side_list')
     if inst.get('lprefs') and any(len(g) > 1 for pl in inst['lprefs'] for g in pl):
         L.append('ties_side2')
     if inst.get('lprefs'):
